@@ -9,7 +9,12 @@ PROPS["C15"] = dict(
                "path sets, attributes, best flag), ADJ_IN raw and with filtered flags, ADJ_OUT and every speaker's accumulated wire view must be identical; "
                "in ~30% of the pairs (50% of the ROUTE-REFRESH pairs, where the refresh is asked six times) the speakers keep announcing/replacing/"
                "withdrawing from their own goroutines (with scheduler yields at gobgp's lock-free points) while the change and/or the reset run and B is "
-               "fed with the final route set. Exploration: (P1, P2, routes, reset, schedule) are sampled; quick 480 pairs, thorough 14400.",
+               "fed with the final route set. Every fourth case is a MULTI-ROUND HISTORY on one daemon: 2-4 policy changes in a row, each followed by a trigger "
+               "drawn independently of the earlier rounds (ROUTE-REFRESH for all families at once or one family at a time, soft out / in / both, one peer or "
+               "all); half of the later rounds take the previous round's change back (relax <-> tighten the same set / assignment / policy), so that routes "
+               "first advertised by one kind of trigger must be withdrawn by another; after EVERY round all views are compared with a fresh daemon that had "
+               "that round's program from the start. Exploration: (P1, P2.., routes, triggers, schedule) are sampled; quick 480 pairs + 160 histories "
+               "(480 rounds), thorough 30x.",
     level_note="Run B (gobgp itself under P2 from the start) is the reference: that a fresh evaluation applies the policy correctly is C10, that the "
                "Loc-RIB picks the right best path is C03. Route timestamps are made irrelevant: all routes of a run arrive at one virtual instant and the "
                "generated routes are totally ordered by the decision process (unique first AS per source, import prepend only of the left-most AS unless "
@@ -26,12 +31,17 @@ PROPS["C15"] = dict(
          "community-count; actions accept/reject/continue + community add/remove/replace, MED set/+/-, local-pref, AS-path prepend, next-hop), "
          "assignments global and per route-server client with either default; change kind in {assign-set, assign-add, assign-del, default-flip, "
          "defset-add, defset-del, defset-replace, policy-add-stmt, policy-del-stmt} x {import, export, both}; non-trivial iff gobgp's own states under "
-         "P1 and under P2 on the same inputs differ on >=1 route; distinct by (changed-verdict pattern set, reset kind, change kind(s), racing)",
+         "P1 and under P2 on the same inputs differ on >=1 route; distinct by (changed-verdict pattern set, reset kind, change kind(s), racing); a history round is non-trivial iff the state before the "
+         "round and the fresh daemon under the round's program differ on >=1 route, distinct by (pattern set, trigger, previous trigger, change kinds). "
+         "Violation keys of round k>=2 carry ':after-<previous trigger>'",
     assumptions=["'the current policy' is what the management API reports after the change (AddDefinedSet with replace = the set now has the new members; "
                  "AddPolicyAssignment appends; AddPolicy on an existing policy appends statements; DeletePolicy/DeleteDefinedSet without 'all' remove the named members)",
                  "a repeated reset may re-send routes, but only as they are already held by the peer (no withdraw of a held route, no changed attributes, no new route)",
                  "DeletePolicyAssignment(all), deleting sets/policies/statements entirely, ADD-PATH sessions, VRF/VPN families and locally originated routes are not generated"],
     must_count=["nontrivial_pairs", "pairs_equal", "repeat_checks", "racing_cases", "routes_compared",
+                "histories", "rounds_equal", "nontrivial_rounds", "rounds_taking_previous_change_back", "rounds_refresh_per_family",
+                "round_soft-out_after_route-refresh", "round_route-refresh_after_route-refresh", "round_route-refresh_after_soft-out",
+                "round_soft-both_after_route-refresh", "round_soft-in_after_soft-out", "round_soft-out_after_soft-in",
                 "reset_soft-in_one", "reset_soft-in_all", "reset_soft-out_one", "reset_soft-out_all", "reset_soft-both_all", "reset_route-refresh_one", "reset_route-refresh_all",
                 "change_assign-set_import", "change_assign-add_import", "change_assign-del_import", "change_default-flip_import", "change_defset-add_import",
                 "change_defset-del_import", "change_policy-add-stmt_import", "change_policy-del-stmt_import",
